@@ -718,6 +718,7 @@ func init() {
 		Prop: "C17",
 		Rule: "history whose normal twin executed at least 3 user functions (all of which the dry container must skip while reporting the same verdicts)",
 		Gen: genGeneric("C17", func(g *genCtx) {
+			g.ft.DeepChains = true
 			g.ft.FaultRate, g.ft.FaultInv = 0, 0
 			// every path to a user function: with callbacks attached, variadic
 			// signatures, deep scope trees
